@@ -303,7 +303,16 @@ func (w *ixWorld) restamp() error {
 	})
 }
 
-func (w *ixWorld) strip(s string) string { return strings.ReplaceAll(s, w.dir, "$W") }
+func (w *ixWorld) strip(s string) string { return s }
+
+// real resolves a path (relative to the scratch directory) to its canonical absolute form.
+func (w *ixWorld) real(p string) (string, error) {
+	a, err := filepath.Abs(p)
+	if err != nil {
+		return "", err
+	}
+	return filepath.EvalSymlinks(a)
+}
 
 func footprintDigest(fp fontscan.Footprint, strip func(string) string) string {
 	return fmt.Sprintf("{loc=%s#%d/%d fam=%q aspect=%d/%08x/%08x scripts=%v langs=%v runes=%x}",
@@ -376,8 +385,15 @@ func (e *ixEngine) Execute(raw json.RawMessage) (*kernel.Outcome, error) {
 		return nil, err
 	}
 	defer os.RemoveAll(d)
-	w.dir, w.tree = d, filepath.Join(d, "tree")
-	w.cache = filepath.Join(d, "cache", "font_index.cache")
+	// The process works inside its private scratch directory with relative paths, so that
+	// the paths stored in an index (and hence its serialized bytes) are identical in every
+	// process that executes the same case.
+	if err := os.Chdir(d); err != nil {
+		return nil, err
+	}
+	defer os.Chdir("/")
+	w.dir, w.tree = d, "tree"
+	w.cache = filepath.Join("cache", "font_index.cache")
 	if err := os.MkdirAll(w.tree, 0o755); err != nil {
 		return nil, err
 	}
@@ -505,7 +521,7 @@ func (w *ixWorld) step(st *IXStep, roots []string) (*kernel.Violation, error) {
 		p := w.abs(st.P)
 		if _, err := os.Lstat(p); err != nil {
 			if os.MkdirAll(filepath.Dir(p), 0o755) == nil {
-				target := w.abs(st.P2)
+				target := filepath.Join(w.dir, w.abs(st.P2)) // absolute target; only the link's own path reaches the index
 				if os.Symlink(target, p) == nil {
 					w.out.Count("probe.symlink", 1)
 				}
@@ -624,7 +640,7 @@ func (w *ixWorld) boot(roots []string, crash *IXStep) (*kernel.Violation, error)
 	for rel := range w.dirty {
 		if st, ok := w.stamps[rel]; ok {
 			if bs, ok2 := w.bootStamp[rel]; ok2 && bs == st {
-				if real, err := filepath.EvalSymlinks(w.abs(rel)); err == nil {
+				if real, err := w.real(w.abs(rel)); err == nil {
 					w.stale[real] = true
 					w.out.Count("fault.mtime_collision", 1)
 					w.out.Nontrivial = true
@@ -645,7 +661,7 @@ func (w *ixWorld) boot(roots []string, crash *IXStep) (*kernel.Violation, error)
 	res := protect(func() { idx, berr = fontscan.VerifRefresh(nopLogger{}, w.cache) })
 	// reference: a boot with no cache file at all
 	w.refN++
-	refCache := filepath.Join(w.dir, fmt.Sprintf("refcache-%d", w.refN), "font_index.cache")
+	refCache := filepath.Join(fmt.Sprintf("refcache-%d", w.refN), "font_index.cache")
 	var ref fontscan.VerifIndex
 	var rerr error
 	res2 := protect(func() { ref, rerr = fontscan.VerifRefresh(nopLogger{}, refCache) })
@@ -734,7 +750,7 @@ func (w *ixWorld) boot(roots []string, crash *IXStep) (*kernel.Violation, error)
 			}
 			path := got[i][:strings.Index(got[i], " @")]
 			ok := w.tainted[got[i]]
-			if real, err := filepath.EvalSymlinks(strings.Replace(path, "$W", w.dir, 1)); err == nil && w.stale[real] && w.prevEnt[path] == got[i] {
+			if real, err := w.real(path); err == nil && w.stale[real] && w.prevEnt[path] == got[i] {
 				ok = true
 			}
 			if !ok {
